@@ -1,6 +1,6 @@
 #!/bin/bash
 # false-alarm sweep on the unchanged tree: every quick check under several seeds
-cd /verif
+cd "$(dirname "$0")/.."
 for seed in "$@"; do
   for p in C01 C02 C03 C04 C05 C06 C07 C08 C09 C10 C11 C12 C13 C14 C15 C16 C17 C18 C19; do
     out=$(VERIF_SEED=$seed ./check $p 2>&1 | grep -E "^(VIOLATION|INCONCLUSIVE|violation|INCONCLUSIVE:)" | head -3 | cut -c1-300)
